@@ -295,3 +295,182 @@ class rechunk_stage_transfer_r2(_rst_base):
             if len(d["old_chunks"]) == 2 and all(isinstance(c, int) for ax in d["old_chunks"] + d["new_chunks"] for c in ax) \
                     and all(len(ax) >= 1 for ax in d["old_chunks"] + d["new_chunks"]):
                 yield d
+
+
+# ---------------------------------------------------------------------------
+# common_blockdim: the merging walk (two and three non-trivial layouts), proved as a fragment
+# ---------------------------------------------------------------------------
+def _cb_lists(x):
+    from pyvc.spec import TupV
+    return list(x.items) if isinstance(x, TupV) else list(x)
+
+
+def _cb_boundary(R, total, t):
+    """t-th boundary, counted from the end, of the layout whose reversed block list is R"""
+    return total - S.prefix(R, t)
+
+
+def _cb_inv(nlists):
+    def inv(v, v0):
+        out = {"i": S.And(0 <= v.i, v.i <= v.total),
+               "out": S.And(S.ssum(v.out) == v.i, S.forall_idx(v.out, lambda j: S.at(v.out, j) >= 1))}
+        for k in range(nlists):
+            L, R = S.item(v.rchunks, k), S.item(v.rchunks0, k)
+            n = S.slen(L)
+            q = getattr(v, f"q{k}")
+            out[f"list{k}-shape"] = S.And(n <= S.slen(R), S.Iff(n == 0, v.i == v.total),
+                                          S.forall_idx(L, lambda j: S.Implies(j < n - 1, S.at(L, j) == S.at(R, j))))
+            out[f"list{k}-position"] = S.Implies(n >= 1, S.And(1 <= S.at(L, n - 1), S.at(L, n - 1) <= S.at(R, n - 1),
+                                                               v.total - v.i == S.prefix(R, n - 1) + S.at(L, n - 1)))
+            b = _cb_boundary(R, v.total, v.t)
+            out[f"list{k}-boundary-kept"] = S.Implies(S.And(0 <= v.t, v.t <= S.slen(R), b <= v.i),
+                                                       S.And(0 <= q, q <= S.slen(v.out), S.prefix(v.out, q) == b))
+        return out
+    return inv
+
+
+def _common_blockdim_walk(nlists):
+    tys = ",".join(["lseq"] * nlists)
+
+    def ghost_init(v):
+        return {f"q{k}": 0 for k in range(nlists)}
+
+    def ghost_update(h, e):
+        r = {}
+        for k in range(nlists):
+            R = S.item(h.rchunks0, k)
+            r[f"q{k}"] = S.If(e.i == _cb_boundary(R, h.total, h.t), S.slen(e.out), getattr(h, f"q{k}"))
+        return r
+
+    @contract(f"{CORE}::common_blockdim", spec=f"walk-{nlists}", props=["C17"])
+    class common_blockdim_walk:
+        """the merging walk of common_blockdim over the reversed block lists of the non-trivial layouts: the result is a
+        layout of the same total with positive blocks, and every block boundary of every input layout is a boundary of
+        the result -- the common layout only ever *splits* an operand's blocks (the `refine` guarantee)."""
+        fragment = {"first": "i = 0", "last": "return tuple(out)"}
+        params = {"rchunks": f"list:{tys}", "total": "int"}
+        ghosts = {"t": "int"}
+        result = "seq"
+
+        def requires(rchunks, total):
+            cs = []
+            for L in _cb_lists(rchunks):
+                cs += [S.slen(L) >= 1, S.forall_idx(L, lambda j: S.at(L, j) >= 1), S.ssum(L) == total]
+            return S.And(*cs)
+
+        def facts(rchunks, total):
+            out = []
+            for L in _cb_lists(rchunks):
+                out += [("mono_prefix", L), ("prefix_nonneg", L)]
+            return out
+
+        def ensures(result, rchunks, total, t, env=None, calls=None):
+            out = {"same-total": S.ssum(result) == total, "positive": S.forall_idx(result, lambda j: S.at(result, j) >= 1)}
+            for k, R in enumerate(_cb_lists(rchunks)):
+                if env is not None:
+                    q = getattr(env, f"q{k}")
+                    out[f"every-boundary-of-input-{k}-is-kept"] = S.Implies(
+                        S.And(0 <= t, t <= S.slen(R)), S.And(0 <= q, q <= S.slen(result), S.prefix(result, q) == _cb_boundary(R, total, t)))
+                else:
+                    bounds = {sum(result[:q]) for q in range(len(result) + 1)}
+                    out[f"every-boundary-of-input-{k}-is-kept"] = (not (0 <= t <= len(R))) or (total - sum(R[:t]) in bounds)
+            return out
+
+        after = {"i = 0": (["rchunks0"], lambda v: {"rchunks0": v.rchunks})}
+        loops = {
+            "while#1": Loop(invariant=_cb_inv(nlists), ghosts={f"q{k}": "int" for k in range(nlists)},
+                            ghost_init=ghost_init, ghost_update=ghost_update, decreases=lambda v, v0: v.total - v.i),
+        }
+
+        def ghost_domain(rchunks, total):
+            return {"t": range(0, max(len(L) for L in rchunks) + 1)}
+
+        def domain(tier, rng):
+            from contracts.slicing import chunkings
+            by_n = {}
+            for n, c in chunkings(6 if tier == "quick" else 8, zero=False):
+                if len(c) >= 1 and n >= 1:
+                    by_n.setdefault(n, []).append(list(c)[::-1])
+            for n, cs in by_n.items():
+                if nlists == 2:
+                    for a in cs:
+                        for b in cs:
+                            yield {"rchunks": [list(a), list(b)], "total": n}
+                else:
+                    for _ in range(400 if tier == "quick" else 4000):
+                        yield {"rchunks": [list(rng.choice(cs)) for _ in range(nlists)], "total": n}
+
+    common_blockdim_walk.__name__ = f"common_blockdim_walk_{nlists}"
+    return common_blockdim_walk
+
+
+CBW2 = _common_blockdim_walk(2)
+CBW3 = _common_blockdim_walk(3)
+
+
+# ---------------------------------------------------------------------------
+# moved_fraction: a pure split moves nothing (proved)
+# ---------------------------------------------------------------------------
+def _refines(src, dst):
+    """every block boundary of src is a block boundary of dst.  Symbolically the witness is an uninterpreted
+    function W (boundary index of src -> boundary index of dst); concretely the boundary sets are compared."""
+    from pyvc.spec import SeqV
+    if isinstance(src, SeqV):
+        import z3
+        W = z3.Function("refine_witness", z3.IntSort(), z3.IntSort())
+        p = z3.Int("p!rw")
+        return z3.ForAll([p], z3.Implies(z3.And(0 <= p, p <= S.slen(src)),
+                                         z3.And(0 <= W(p), W(p) <= S.slen(dst), S.prefix(dst, W(p)) == S.prefix(src, p))),
+                         patterns=[S.prefix(src, p)])
+    bd = {sum(dst[:q]) for q in range(len(dst) + 1)}
+    return all(sum(src[:p]) in bd for p in range(len(src) + 1))
+
+
+def _mfs_outer(v, v0):
+    import z3
+    src, dst = v.src, v.dst
+    return {
+        "i": S.And(0 <= v.i, v.i < S.slen(src)),
+        "src_start": v.src_start == z3.ToReal(S.prefix(src, v.i)),
+        "dst_start": v.dst_start == z3.ToReal(S.prefix(dst, v.it)),
+        "nothing-moved": v.moved == 0,
+        "source-block-holds-the-target-start": S.And(S.prefix(src, v.i) <= S.prefix(dst, v.it),
+                                                     S.Implies(v.it < S.slen(dst), S.prefix(dst, v.it) < S.prefix(src, v.i + 1))),
+    }
+
+
+def _mfs_inner(v, v0):
+    import z3
+    src, dst = v.src, v.dst
+    first = S.And(v.best == 0, S.prefix(src, v.i) <= S.prefix(dst, v.it), S.prefix(dst, v.it) < S.prefix(src, v.i + 1))
+    moved_on = S.And(v.best == z3.ToReal(v.target), S.prefix(src, v.i) == S.prefix(dst, v.it + 1))
+    return {
+        "i": S.And(0 <= v.i, v.i < S.slen(src)),
+        "src_start": v.src_start == z3.ToReal(S.prefix(src, v.i)),
+        "state": S.Or(first, moved_on),
+    }
+
+
+@contract(f"{EXPR}::moved_fraction", spec="splits-proof", props=["C27", "C17"])
+class moved_fraction_splits_proof:
+    """a pure split (every boundary of src is a boundary of dst, positive blocks) moves nothing: the fraction is 0."""
+    params = {"src": "seq", "dst": "seq"}
+    result = "real"
+
+    def requires(src, dst):
+        return S.And(S.slen(src) >= 1, S.slen(dst) >= 1, S.forall_idx(src, lambda j: S.at(src, j) >= 1),
+                     S.forall_idx(dst, lambda j: S.at(dst, j) >= 1), S.ssum(src) == S.ssum(dst), _refines(src, dst))
+
+    def facts(src, dst):
+        return [("mono_prefix", src), ("mono_prefix", dst), ("strict_prefix", dst), ("strict_prefix", src)]
+
+    def ensures(result, src, dst):
+        return {"pure-split-moves-nothing": result == 0}
+
+    loops = {
+        "for#1": Loop(invariant=_mfs_outer),
+        "while#1": Loop(invariant=_mfs_inner, decreases=lambda v, v0: S.slen(v.src) - v.i),
+    }
+
+    def domain(tier, rng):
+        yield from moved_fraction.domain(tier, rng)
